@@ -70,7 +70,14 @@ P = {
             "repaired to be valid but for one or two perturbations. Observation = subject id + whether the attributes equal "
             "the sent payload, or the error class by errors.Is. Non-trivial = the token parsed and the decision was taken in "
             "key selection, verifyTokenWithKey, Claims.Validate or subject creation (by the error text's code site, used for "
-            "the histogram only); distinct by hash of the generated description (relative times)",
+            "the histogram only); distinct by hash of the generated description (relative times). Second stream (keycache): "
+            "histories of 2-4 requests against ONE authenticator (and rule-level copies with their own cache_ttl / algorithms) "
+            "with the JWK cache on a real memory cache (cache.WithContext + memory.NewCache; cache_ttl default / 5m / 0s), "
+            "jwks_endpoint url templated with {{ .TokenIssuer }} in 85% (else one url for all issuers), 2-3 trusted tenants "
+            "whose key sets share kids for different keys (sometimes the same key, duplicate kids), key sets rotating and "
+            "endpoints failing between the requests; tokens signed with the tenant's own key, with the key ANOTHER tenant "
+            "publishes under the same kid, with the rotated-out key, or an unpublished one, with and without kid; "
+            "non-trivial = some request looks up a (url, kid) that an earlier request of the history filled",
     "anchors": ["internal/rules/mechanisms/authenticators/jwt_authenticator.go",
                 "internal/rules/mechanisms/authenticators/supported_algorithms.go",
                 "internal/rules/mechanisms/authenticators/default_allowed_algorithms.go",
@@ -96,7 +103,11 @@ P = {
                 "2^53 and 2^63 (float rounding) are not generated; time.Time wrap-around beyond year 292e9 is not modelled",
                 "the clock is read by the driver before and after Execute (same second, else the case is repeated); "
                 "sub-second leeways are generated so that the nanosecond-precise iat check does not depend on the sub-second clock",
-                "subject id templates are plain member names (gjson paths are not modelled); the attributes template is the default"],
+                "subject id templates are plain member names (gjson paths are not modelled); the attributes template is the default",
+                "key cache (second stream): the cache is modelled as a map (rendered url, kid) -> key that never expires within a "
+                "history (entry expiry / TTL arithmetic is C10's subject), keys carry no certificates there, the endpoint hash "
+                "component of the cache key is constant per authenticator and left out; the memory cache, SHA-256 and the JSON "
+                "round trip of the cached JWK behave as observed"],
     "level_text": "Proof (kernel-checked, no axioms) about a faithful model of jwt_authenticator.go (Execute, WithConfig, verifyToken, "
                   "verifyTokenWithoutKID, getKey, verifyTokenWithKey), oauth2 Expectation.Merge/Assert*, Claims.Validate, claim "
                   "decoding and the three scope matchers: for all configurations incl. rule-level overrides, all key sets, clocks "
@@ -105,20 +116,27 @@ P = {
                   "audience is present, the required scopes match, now lies in [nbf - leeway, exp + leeway) and iat is not in the "
                   "future, and the subject id is the configured member of those verified claims (soundness + completeness against "
                   "an independently written specification); unsigned tokens, tokens no published key verifies, and algorithm "
-                  "confusion are rejected unconditionally; Merge precedence rule > mechanism > metadata. Two deviations found "
+                  "confusion are rejected unconditionally; Merge precedence rule > mechanism > metadata. For histories of requests "
+                  "against one authenticator with its JWK cache (templated key-set URL over the unverified issuer, key sets "
+                  "changing in between) every answer equals the cache-less answer against the key set that is or was published at "
+                  "the request's own rendered URL, the present one when the token has no kid or the cache is off - a cached key "
+                  "is never reused for another url or kid (C05_cache_history_stateless/_spec/_transparent). Two deviations found "
                   "by the model (exp <= 0 never expired; nbf/iat >= 2^63 wrapped to 'not set') were repaired by fix: commits "
                   "a3a89b7 and f16c3cc; the theorem is about the repaired code, the former behaviour is kept as "
                   "C05_pinned_iff_spec / C05_F1_pinned_refuted / C05_F2_pinned_refuted; the one guard left is the exotic C05-F3 "
                   "(exp = -62135596800, Go's zero time, still counts as absent). The model is tied to the code by running "
-                  "~1500 (quick) / 40000 (thorough) generated and mutated tokens per run through the real authenticator against a "
-                  "local JWKS server.",
+                  "~1500 (quick) / 40000 (thorough) generated and mutated tokens and ~500 / 12000 request histories with a real "
+                  "memory cache per run through the real authenticator against a local JWKS server.",
     "level_note": "Partial by construction: signature verification, JSON/JWS parsing and certificate validation are oracles (trusted "
                   "base); the theorem is about the decision logic around them. Error kinds are compared as classes by errors.Is "
                   "(argument / authentication [+assertion | +scope] / communication / internal), so the order of the assertions "
-                  "is only visible where the class differs. Key cache, metadata_endpoint discovery, custom jwt_source and subject "
+                  "is only visible where the class differs. Cache entry expiry, metadata_endpoint discovery with templates, custom "
+                  "jwt_source and subject "
                   "attribute templates are not exercised (metadata_endpoint with a fixed URL is). Open finding C05-F3 is printed as "
                   "KNOWN-FINDING on every run; C05-F1 and C05-F2 are fixed (reverting either commit is reported as VIOLATION).",
     "extra_coverage": site_coverage,
     "assumptions": ["sane_clock: the clock lies after 1970 and before the int64 horizon by more than the leeway",
-                    "the key cache is off in the driver (cache_ttl: 0s), every case fetches its own key set from the local JWKS server"],
+                    "first stream: the key cache is off (cache_ttl: 0s), every case fetches its own key set from the local JWKS "
+                    "server; second stream: one memory cache per history, no entry expires within a history (TTL >= 1 min, a "
+                    "history takes milliseconds), rule-level copies cannot change validate_jwk"],
 }
